@@ -20,12 +20,18 @@ SPEC = {
         "trees -- no plz-out name below the top level of the root package, no hidden directory unless hidden=True -- the WalkDir "
         "callback with its SkipDir cuts, isInDirectories and isHidden leave exactly the package's owned, visible entries, "
         "symlinks in the symlink bucket; so nothing inside a sub-package or plz-out is ever returned and nothing owned is lost), "
-        "C21_spec_is_selection. Not proved, covered by correspondence only: the parsers "
+        "C21_spec_is_selection, C21_exclude_exact (shouldExcludeMatch's three clauses = the specification's), and composed "
+        "C21_exact_partial: on benign trees and patterns of the fragment the pipeline globber.glob runs (walk, matcher of an "
+        "include, sub-package / hidden filters, excludes) accepts a name iff the specification selects the entry -- with every "
+        "compiled matcher read on the parsed pattern; C21_builtin_bridge (for patterns without `**` the string-level pipeline "
+        "patternToMatcher facts on the pattern *text* is that parsed-pattern matcher: parseGlob/render round trip). "
+        "Not proved, covered by correspondence only: the regexp half of that bridge "
         "(string-level ReplaceAll chain / regexp parser vs the parsed-pattern denotation; cross-checked by the driver on "
-        "every case and by `decide` examples), exclude semantics end to end."),
+        "every case and by `decide` examples); unclean patterns (filepath.Join would rewrite them) are outside the model: "
+        "patternToMatcher answers none, the driver `unmodelled`."),
     "technique": "Lean 4 theorems over an executable model (walk, filepath.Match fragment, ReplaceAll chain interpreted from extracted facts, regexp-fragment parser and matcher) + differential correspondence on real directory trees + segment-wise reference oracle",
     "trusted": [
-        "go/ast extractor harness/extract/c21: toRegexString's wrap and ordered ReplaceAll chain (interpreted by the model), the `**` selector, plz-out literal and its rootPath guard, isHidden markers; source shapes of patternToMatcher / walkDir / glob filters / isInDirectories / builtins.go glob() (unrecognised shape -> facts unreadable)",
+        "go/ast extractor harness/extract/c21: toRegexString's wrap and ordered ReplaceAll chain (interpreted by the model), the `**` selector, plz-out literal and its rootPath guard, isHidden markers; source shapes of patternToMatcher / walkDir / glob filters / isInDirectories / isBathPathOf / shouldExcludeMatch (base-path test, file-name-only rule) / isBuildFile / regexGlob.Match = unanchored MatchString / builtInGlob.Match = filepath.Match (unrecognised shape -> facts unreadable -> Expected facts + thorough correspondence); builtins.go glob(): BUILD file names appended to the excludes (a real fact: its absence fails C21_facts_ok)",
         "correspondence harness/cmd/c21 vs Driver/C21.lean: (*Globber).Glob called like builtins.go:726 (BUILD file names appended to excludes) on trees created under $VERIF_SCRATCH; 900-case exhaustive family (30 patterns x 5 exclude sets x 3 package roots x hidden) + seeded random trees/patterns derived from existing paths (names with ( ) | + # . spaces, non-ASCII; hidden files/dirs, symlinks, nested packages, plz-out); results compared as sets",
         "driver self-check on every case: string-level matcher == parsed-pattern matcher (structMatch) on all walked names",
         "direct oracle: independent segment-wise reference in Go; a failure is named after the first member of a smallest set of the six switchable known deviations that reproduces the real output exactly; patterns routed through the regexp with ( ) | are attributed to regex-metacharacters-unescaped; anything else is `unexplained`",
